@@ -131,28 +131,66 @@ wal_size_within_remaining = pc.rejected_before(
     rhs=lambda fa, b, s, o: pc._root(b, o) is not None and pc._root(b, o) == pc._root(b, _site_term(b, s)["a"][-1]))
 
 
-def insert_pos_after_separator(fa, b, s):
-    """`name.insert(pos, '.')`: every definition of pos is the constant 0 or `<rfind result> + 1`."""
-    pos = pc._root(b, _site_term(b, s)["a"][1])
-    ds = cfg.defs(b).get(pos, [])
-    if not ds:
-        return False
-    for d in ds:
-        if d[0] != "assign":
+_POS_COMBINATORS = ("or_else", "or", "map", "map_or", "map_or_else", "unwrap_or", "unwrap_or_default", "unwrap_or_else", "and_then",
+                     "branch", "from_residual", "into", "from")
+
+
+def _ascii_char_pattern(b, t):
+    """the pattern argument of a `str::rfind` / `find` call is a one-byte character constant"""
+    for a in t["a"][1:]:
+        c = cfg.op_const(a)
+        if not c or c.get("ty") != "char":
             return False
-        r = d[2]
-        if r["k"] == "use" and pc.const_of(b, r["o"]) == 0:
-            continue
-        pl = cfg.op_place(r["o"]) if r["k"] == "use" else None
-        adds = [x[2] for x in cfg.defs(b).get(pl[0], []) if x[0] == "assign" and x[2]["k"] == "bin"] if pl else []
-        if len(adds) == 1 and adds[0]["op"].startswith("Add") and pc.const_of(b, adds[0]["b"]) == 1:
-            src = pc._root(b, adds[0]["a"])          # `slash` = (rfind(..) as Some).0
-            pay = [cfg.op_place(x[2]["o"]) for x in cfg.defs(b).get(src, []) if x[0] == "assign" and x[2]["k"] == "use"]
-            if len(pay) == 1 and pay[0] and any(x[0] == "call" and (cfg.callee(x[2]) or "").endswith("::rfind")
-                                                for x in cfg.defs(b).get(pay[0][0], [])):
+        txt = c.get("c", "")
+        if not (len(txt) in (3, 4) and txt[0] == "'" and txt[-1] == "'" and all(ord(ch) < 128 for ch in txt)):
+            return False
+    return len(t["a"]) == 2
+
+
+def _pos_value_ok(fa, b, seeds, depth=0):
+    """The value of `seeds` is computed only from the constant 0, results of `rfind` / `find` for a one-byte character,
+    `+ 1`, and Option combinators whose closures do nothing else (a data-slice check: position = 0 or one past a
+    one-byte character, hence a character boundary not beyond the length)."""
+    sl, calls_in, reads = cfg.backward_slice(b, seeds)
+    for l in sl:
+        for d in cfg.defs(b).get(l, []):
+            if d[0] not in ("assign", "partial"):
                 continue
-        return False
-    return True
+            r = d[2]
+            if r["k"] == "bin":
+                base = r["op"].replace("WithOverflow", "").replace("Unchecked", "")
+                if not (base == "Add" and pc.const_of(b, r["b"]) == 1):
+                    return False
+            elif r["k"] in ("use", "cast"):
+                c = cfg.op_const(r["o"])
+                if c is not None and "v" in c and c["v"] not in (0,):
+                    return False
+            elif r["k"] == "agg" and r.get("what") in ("closure",):
+                cb = fa.body(r["def"])
+                if cb is None or depth > 2 or not _pos_value_ok(fa, cb, [0], depth + 1):
+                    return False
+    found = False
+    for i, t in calls_in:
+        n = (cfg.callee_decl(t) or cfg.callee(t) or "")
+        last = n.split("::")[-1]
+        if last in ("rfind", "find") and "str" in n:
+            if not _ascii_char_pattern(b, t):
+                return False
+            found = True
+        elif last in _POS_COMBINATORS and ("option::Option" in n or "ops::" in n or "convert::" in n or "Option<" in n):
+            for a in t["a"]:
+                c = cfg.op_const(a)
+                if c is not None and "v" in c and c["v"] != 0:
+                    return False
+        else:
+            return False
+    return found or depth > 0
+
+
+def insert_pos_after_separator(fa, b, s):
+    """`name.insert(pos, '.')`: pos is 0 or `<rfind of a one-byte character> + 1` (data slice of pos)."""
+    pos = pc._root(b, _site_term(b, s)["a"][1])
+    return _pos_value_ok(fa, b, [pos])
 
 
 def write_range_is_pos_plus_len(fa, b, s):
